@@ -1,4 +1,6 @@
 import SSVerif.Model.Lattice
+import SSVerif.Model.LatticeHist
+import SSVerif.Model.LatticeCache
 import SSVerif.Model.LogConfigs
 import Driver.Util
 /-! driver sub-command `c11` (serves C11 and C12): reads dumped lattices (plus the search FSG, the
@@ -23,6 +25,8 @@ structure St where
   scaled : Array Int := #[]
   endEntries : Array Nat := #[]
   bad : Bool := false
+  /-- call trace of the harness (cache clause), `none` = an API name `Call.ofApi` does not know -/
+  trace : Array (Option Call) := #[]
 
 def optNat (z : Int) : Option Nat := if z < 0 then none else some z.toNat
 
@@ -78,6 +82,15 @@ def report (s : St) (k : Nat) (light : Bool := false) : List String := Id.run do
   match s.build with
   | none => out := out ++ ["built skipped"]
   | some (frame, wS, wE, silWord, silpen, fillpen, fillers) =>
+    -- hypothesis of `C11_build_latticeOK`, evaluated on the dumped history table of the implementation
+    let wf := histWFB G s.hist frame
+    let badIdx := if wf then [] else ((List.range s.hist.size).filter fun i => !decide (EntryWF G s.hist frame i)).take 3
+    -- hypothesis of `C11_build_first_best`: the first-best segmentation is a complete backtrace of the table
+    if s.haveSegs then
+      match findChain s.hist s.segs.toList with
+      | some c => out := out ++ [s!"chain found len={c.length} ok={if chainOKB s.hist c && segsOf s.hist c == s.segs.toList then 1 else 0}"]
+      | none => out := out ++ ["chain none"]
+    out := out ++ [s!"histwf {if wf then 1 else 0} entries={s.hist.size} word={nWordEntries s.hist} extra={if extraB s.hist then 1 else 0} wframe={if wordFrameB s.hist then 1 else 0} bad=" ++ sepBy "," (badIdx.map toString)]
     match buildLattice G s.hist frame wS wE (fun w => fillers.contains w) silWord silpen fillpen with
     | none => out := out ++ ["built none"]
     | some B =>
@@ -137,6 +150,15 @@ def step (s : St) (ws : List String) : St × List String :=
     match ints rest with
     | some xs => ({ s with endEntries := (xs.map Int.toNat).toArray }, [])
     | none => ({ s with bad := true }, [])
+  | ["z", name, arg] =>
+    -- one public call the harness made (cache clause): classified by the model's `Call.ofApi`
+    ({ s with trace := s.trace.push ((parseNat arg).bind (Call.ofApi name)) }, [])
+  | ["zrun"] =>
+    match s.trace.toList.mapM id with
+    | none => ({}, ["cachetrace unknown-call", "end"])
+    | some cs =>
+      ({}, ["cachetrace " ++ sepBy " " ((Sess.init.outputs cs).map showOptNat),
+            "quiet " ++ sepBy " " ((quietFlags true cs).map fun b => if b then "1" else "0"), "end"])
   | ["run", k] =>
     if s.bad then ({}, ["bad-input", "end"]) else ({}, report s ((parseNat k).getD 0))
   | ["runlight", k] =>
